@@ -497,7 +497,13 @@ func c17Truncate(c *ev.Ctx, streams [][]c17frame) {
 			step = 3
 		}
 		for t := 0; t <= len(all); t += step {
-			for _, with := range []bool{false, true} {
+			// mode 0: generic reader, EOF after the last byte; 1: generic
+			// reader, EOF delivered together with the last byte; 2: a real
+			// socket pair whose sending direction is shut down after byte t
+			// (the vectorised receive path: recvmsg returns 0 in mid-frame)
+			for mode := 0; mode < 3; mode++ {
+				with := mode == 1
+				socket := mode == 2
 				idx++
 				if !c.Mine(idx) {
 					continue
@@ -505,16 +511,20 @@ func c17Truncate(c *ev.Ctx, streams [][]c17frame) {
 				if with && t == 0 {
 					continue
 				}
-				fx := c17Setup(c, false)
+				if socket && c.Quick() && (t+si)%2 == 1 {
+					continue
+				}
+				fx := c17Setup(c, socket)
 				if fx == nil {
 					continue
 				}
-				c.Begin(fmt.Sprintf("C17 truncate %s at %d withEOF=%v", streamKey(frames), t, with))
+				c.Begin(fmt.Sprintf("C17 truncate %s at %d withEOF=%v socket=%v", streamKey(frames), t, with, socket))
 				fx.run = 1
-				base := fx.cr.Pos()
 				from := fx.p.NReplies()
 				ncalls := fx.fs.NCalls()
-				fx.cr.SetEOF(base+int64(t), with)
+				if !socket {
+					fx.cr.SetEOF(fx.cr.Pos()+int64(t), with)
+				}
 				// how many frames are complete at t
 				complete, p := 0, 0
 				for _, e := range enc {
@@ -528,13 +538,23 @@ func c17Truncate(c *ev.Ctx, streams [][]c17frame) {
 				}
 				if t > 0 {
 					fx.p.SendRaw(all[:t])
-				} else {
+				} else if !socket {
 					// nothing to send: the reader is blocked in the pipe; end it
 					fx.p.C.Close()
 				}
+				if socket {
+					fx.p.Flush()
+					if hc, ok := fx.sp.A.(interface{ CloseWrite() error }); ok {
+						hc.CloseWrite()
+					} else {
+						c.Inconclusive("C17: socket pair end cannot be half-closed")
+						fx.close()
+						continue
+					}
+				}
 				out, dump := quiesce.Await(fx.p.HandleDone, wd)
-				det := map[string]any{"stream": streamKey(frames), "cut_at": t, "eof_with_last_bytes": with, "stream_bytes": len(all), "complete_frames": complete}
-				c.Case(fmt.Sprintf("trunc:%s:%d:%v", streamKey(frames), t, with), true)
+				det := map[string]any{"stream": streamKey(frames), "cut_at": t, "eof_with_last_bytes": with, "socket": socket, "stream_bytes": len(all), "complete_frames": complete}
+				c.Case(fmt.Sprintf("trunc:%s:%d:%d", streamKey(frames), t, mode), true)
 				if out != quiesce.CondMet {
 					hang(c, out, dump, "C17:srv:Handle-does-not-return-after-truncated-stream", det)
 					fx.close()
